@@ -11,6 +11,12 @@ stationary multi-tone signals (measurements with stated tolerances). The same cl
 histories on long-lived objects (requests interleaved with updates of the series' data, modify, copies): the spectrum is
 that of the data the series holds at the time of the request.
 
+Exact area identity (`parseval` cases; Lean: Parseval's identity with one-sided folding, over the reals): for seeded signals of
+even and odd length, one segment (`nperseg = n`) or several (default / explicit half overlap, other overlaps, zero padding
+`nfft > nperseg`), `sum(P) * df` of `signal.psd` and of `TimeSeries.psd` against the mean over the segments of
+`sum((w*y)^2)/sum(w^2)` (scipy's Hann window, y = segment - mean) to 1e-9 relative (`oracles:parseval`), and the model's two
+sides (`psd.area`, driver op of `Qats.Welch.welchArea`) against the implementation's two sides (n <= 256).
+
 Input classes generated on purpose (audit after three rounds of seeded changes):
 * spelling: x as list / tuple / integer array / int32 / strided and reversed views / read-only array, dt as python int, numpy
   scalars, 0-d array; arguments positional / by keyword / omitted / welch's defaults written out; nperseg as numpy integer;
@@ -1185,7 +1191,110 @@ def evaluate_guifault(case):
     return bad
 
 
-DISPATCH = {"history": evaluate_history, "tsopt": evaluate_tsopt, "guiopt": evaluate_guiopt, "plot": evaluate_plot,
+# ----------------------------------------------------------------------------------------------------------
+# the exact identity behind "area = variance" (Lean: segment_area_is_weighted_meansquare,
+# welch_area_is_mean_weighted_meansquare, psd_area_ts): both sides evaluated on the implementation
+# ----------------------------------------------------------------------------------------------------------
+PARSEVAL_RTOL = 1e-9
+
+
+def parseval_sides(x, dt, f, p, nps, nov, nf):
+    """(area of the returned spectrum, mean over the segments of sum((w*y)^2)/sum(w^2)); Hann window from scipy"""
+    import scipy.signal
+    x = np.asarray(x, dtype=float)
+    n = x.size
+    nps = min(nps, n)
+    nov = nps // 2 if nov is None else nov
+    nf = nps if nf is None else nf
+    f, p = np.asarray(f, dtype=float), np.asarray(p, dtype=float)
+    df = float(f[1] - f[0]) if f.size >= 2 else 1.0 / (nf * dt)      # the implementation's own frequency step
+    area = float(np.sum(p * df))
+    w = scipy.signal.get_window("hann", nps)
+    vals = []
+    for s0 in range(0, n - nps + 1, nps - nov):
+        seg = x[s0:s0 + nps]
+        y = seg - np.mean(seg)
+        vals.append(float(np.sum((w * y) ** 2) / np.sum(w * w)))
+    return area, float(np.mean(vals)), len(vals), df
+
+
+def parseval_tol(x, rhs):
+    return PARSEVAL_RTOL * abs(rhs) + (1e-12 * (float(np.max(np.abs(x))) if np.size(x) else 0.0)) ** 2 + 1e-300
+
+
+def evaluate_parseval(case):
+    """area under the spectrum = mean over the segments of the window-weighted mean square of the mean-removed segment,
+    for signal.psd and for TimeSeries.psd (not normalised) on the same arrays; the second request on the same objects too"""
+    import qats.signal
+    from qats import TimeSeries
+    bad = []
+    t, x = materialise(case["sig"])
+    dt = case["sig"]["dt"]
+    nps, nov, nf = case["nperseg"], case.get("noverlap"), case.get("nfft")
+    kw = {k: v for k, v in (("noverlap", nov), ("nfft", nf)) if v is not None}
+    ts = TimeSeries("a", t, x)
+    x0 = x.copy()
+    for rep in range(2):
+        for via in ("signal", "ts") if x.size >= 2 else ("signal",):     # one sample has no time step: TimeSeries.psd raises (modelled)
+            if via == "signal":
+                f, p = qats.signal.psd(x, dt, nperseg=nps, **kw)
+                dte = dt
+            else:
+                f, p = ts.psd(nperseg=nps, **kw)
+                dte = float(np.mean(np.diff(t)))
+            area, rhs, nseg, df = parseval_sides(x0, dte, f, p, nps, nov, nf)
+            nfe = min(nps, x.size) if nf is None else nf
+            if not (np.isfinite(area) and abs(area - rhs) <= parseval_tol(x0, rhs)):
+                bad.append(("the area under the one-sided density, sum(P) * df, equals the mean over the %s of sum((w*y)^2)/sum(w^2) "
+                            "(w = Hann window, y = segment minus its mean; relative tolerance 1e-9) [%s%s]"
+                            % ("segments" if nseg > 1 else "single segment", "signal.psd" if via == "signal" else "TimeSeries.psd",
+                               ", second request" if rep else ""), rhs, area))
+            if f.size >= 2 and not abs(df - 1.0 / (nfe * dte)) <= 1e-9 / (nfe * dte):
+                bad.append(("the frequency step is 1/(nfft*dt) [%s]" % via, 1.0 / (nfe * dte), df))
+    if not np.array_equal(x, x0):
+        bad.append(("the signal is not changed by the request", brief(x0), brief(x)))
+    return bad
+
+
+def gen_parseval(rng, long=False):
+    """seeded signal of even / odd length; one segment (nperseg = n) or several half-overlapping ones"""
+    mode = rng.choice(["single", "single", "half", "half", "overlap", "pad"])
+    if long:
+        n = rng.choice([1000, 1001, 2048, 2049, 4097])
+    else:
+        u = rng.random()
+        n = rng.choice([1, 2, 3, 4, 5, 6, 7, 8, 9]) if u < 0.2 else (rng.randint(10, 120) if u < 0.8 else rng.randint(121, 256))
+    dt = pick_dt(rng)
+    kind = rng.choice(["gauss", "gauss", "tones", "ints", "const", "ramp"])
+    sig = dict(n=n, dt=dt, t0=rng.choice([0.0, 12.5, -3.0]), offset=rng.choice([0.0, 0.0, 1.5, -40.0]))
+    if kind == "gauss":
+        sig.update(noise_sd=rng.choice([1.0, 0.25, 30.0]), noise_seed=rng.randrange(10 ** 9))
+    elif kind == "tones":
+        fny = 0.5 / dt
+        sig.update(tones=[[rng.uniform(0.1, 3.0), rng.uniform(0.02, 0.98) * fny, rng.uniform(0, 2 * math.pi)] for _ in range(rng.randint(1, 3))],
+                   noise_sd=rng.choice([0.0, 0.1]), noise_seed=rng.randrange(10 ** 9))
+    elif kind == "ramp":
+        sig.update(slope=rng.uniform(-2, 2), noise_sd=0.05, noise_seed=rng.randrange(10 ** 9))
+    elif kind == "ints":
+        r = random.Random(rng.randrange(10 ** 9))
+        sig = dict(x=[float(r.randint(-4, 4)) for _ in range(n)], dt=dt, t0=sig["t0"])
+    nov = nf = None
+    if mode == "single" or n < 4:
+        nps = n
+        if n >= 2 and rng.random() < 0.25:
+            nps = n + rng.choice([1, 7])                 # clipped to n
+    else:
+        nps = rng.randint(2, max(2, n // 2)) if not long else rng.choice([64, 127, 128, 255, 256, n // 4, n // 3])
+        if mode == "half" and rng.random() < 0.5:
+            nov = nps // 2                               # the default, written out
+        elif mode == "overlap":
+            nov = rng.choice([0, 1, nps - 1, nps // 3])
+        elif mode == "pad":
+            nf = nps + rng.choice([1, 2, 3, nps, nps + 1])
+    return dict(api="parseval", sig=sig, nperseg=nps, noverlap=nov, nfft=nf), kind, mode
+
+
+DISPATCH = {"parseval": evaluate_parseval, "history": evaluate_history, "tsopt": evaluate_tsopt, "guiopt": evaluate_guiopt, "plot": evaluate_plot,
             "sighist": evaluate_sighist, "guifault": evaluate_guifault}
 
 
@@ -1706,12 +1815,20 @@ def add_faults(rng, case):
 
 
 # ----------------------------------------------------------------------------------------------------------
+USES_TRANSLATOR = True          # psd_fs, psd_nperseg_frac are regenerated from qats/signal.py, qats/ts.py
+ANCHOR_PREFIX = ("psd_",)
+
+
 def run(chk):
     from qats import TimeSeries
     chk.extra["rule"] = RULE
     chk.partial += [
-        "area under the density = variance of a stationary signal (Parseval's identity for the Hann-windowed, averaged estimator): "
-        "measured on the implementation (3 % tolerance; GUI path -8 %/+3 % because of its 10 % taper), not proved",
+        "area under the density = variance of a stationary signal: the exact identity area = mean over the segments of "
+        "sum((w*y)^2)/sum(w^2) is proved for the model over the reals (Parseval with one-sided folding; theorems "
+        "segment_area_is_weighted_meansquare, core_area_is_mean_weighted_meansquare, welch_area_is_mean_weighted_meansquare, psd_area_ts) "
+        "and evaluated on the implementation to 1e-9 (stream oracles:parseval, model tie psd.area); that the window-weighted mean square "
+        "of a stationary signal is close to its variance is a statistical statement: measured (3 % tolerance; GUI path -8 %/+3 % because "
+        "of its 10 % taper), not proved",
         "peak at the frequency of a dominant sinusoid: measured (within one frequency step), not proved",
         "conformance of scipy.signal.welch / numpy FFT to the explicit-DFT definition: measured by the Float correspondence "
         "(1e-9 of the spectrum's peak), the theorems are about the explicit-DFT model",
@@ -1728,6 +1845,8 @@ def run(chk):
     rng = chk.rng
     drv = core.Driver()
     q = chk.quick
+    from .c13_gen import run_gen
+    run_gen(chk, drv)           # regenerated expressions psd_fs / psd_nperseg_frac against the arguments handed to scipy
     lines, meta = [], []
     oracle_cases = []
 
@@ -1852,6 +1971,22 @@ def run(chk):
         if len(case["series"]) == 1:
             add_processed(case)
 
+    # ---- exact area identity (Parseval): model's two sides against the implementation's two sides ------------------------------------------
+    for k in range(120 if q else 1200):
+        case, kind, mode = gen_parseval(rng, long=False)
+        t, x = materialise(case["sig"])
+        oracle_cases.append(case)
+        chk.dist("parseval:%s:%s:%s" % (mode, "even" if x.size % 2 == 0 else "odd", kind))
+        if kind != "const" and x.size >= 3:
+            chk.nontriv(repr(case))
+        lines.append("psd.area %s %s %s %s %s" % (fbits(case["sig"]["dt"]), arg(case["nperseg"]), arg(case["noverlap"]), arg(case["nfft"]), floats(x)))
+        meta.append(dict(api="area", case=case))
+    for k in range(8 if q else 120):
+        case, kind, mode = gen_parseval(rng, long=True)
+        oracle_cases.append(case)
+        chk.nontriv(repr(case))
+        chk.dist("parseval:long:%s:%s" % (mode, "even" if case["sig"].get("n", 0) % 2 == 0 else "odd"))
+
     # ---- model vs implementation --------------------------------------------------------------------------------------------------
     outs = drv.run(lines, shards=min(core.NCPU, 8))
     for case, o in zip(meta, outs):
@@ -1874,6 +2009,27 @@ def run(chk):
             fsc = 1e-12 * (float(np.max(np.abs(im[1]))) if im[1].size else 0.0) + 1e-300
             if not same(m[1], im[1], fsc) or (not noise and not same(m[2], im[2], (1e-9 + 4e-15 * rt) * sc)):
                 chk.disagree(stream, inp, dict(f=brief(m[1]), p=brief(m[2])), dict(f=brief(im[1]), p=brief(im[2])))
+            continue
+        if case["api"] == "area":
+            # the model's area and its mean weighted mean square against the same two quantities of the implementation
+            chk.count("psd.area")
+            inp = case["case"]
+            try:
+                import qats.signal
+                tt, xx = materialise(inp["sig"])
+                kw = {k_: v_ for k_, v_ in (("noverlap", inp.get("noverlap")), ("nfft", inp.get("nfft"))) if v_ is not None}
+                f_, p_ = qats.signal.psd(xx, inp["sig"]["dt"], nperseg=inp["nperseg"], **kw)
+                ia, ir, _, _ = parseval_sides(xx, inp["sig"]["dt"], f_, p_, inp["nperseg"], inp.get("noverlap"), inp.get("nfft"))
+                toks = o.split()
+                if toks[0] != "ok" or len(toks) != 3:
+                    chk.disagree("psd.area", inp, o, [ia, ir])
+                    continue
+                ma, mr = unfbits(toks[1]), unfbits(toks[2])
+                tol = parseval_tol(xx, ir)
+                if not (abs(ma - ia) <= tol and abs(mr - ir) <= tol and abs(ma - mr) <= tol):
+                    chk.disagree("psd.area", inp, dict(area=ma, mean_weighted_meansquare=mr), dict(area=ia, mean_weighted_meansquare=ir))
+            except Exception as e:  # noqa
+                chk.disagree("psd.area", inp, o, "%s: %s" % (type(e).__name__, str(e)[:80]))
             continue
         t, x = materialise(case["sig"])
         if case["api"] == "guisig":
@@ -2083,6 +2239,21 @@ def replay(rp):
     if case.get("api") in ("history", "sighist"):
         print("history:", " -> ".join(st["op"] + ("(%r)" % st["v"] if "v" in st else "") + ("[%s %s]" % (st["what"], st.get("kwargs") or {k: st[k] for k in ("twin", "fargs", "nperseg") if k in st})
                                                                                             if st["op"] == "fault" else "") for st in case["steps"]))
+    if case.get("api") == "parseval":
+        try:
+            import qats.signal
+            t, x = materialise(case["sig"])
+            kw = {k_: v_ for k_, v_ in (("noverlap", case.get("noverlap")), ("nfft", case.get("nfft"))) if v_ is not None}
+            f_, p_ = qats.signal.psd(x, case["sig"]["dt"], nperseg=case["nperseg"], **kw)
+            ia, ir, nseg, df = parseval_sides(x, case["sig"]["dt"], f_, p_, case["nperseg"], case.get("noverlap"), case.get("nfft"))
+            print("signal.psd: n = %d, %d segment(s), df = %g, area = %.12g, mean of sum((w*y)^2)/sum(w^2) = %.12g" % (x.size, nseg, df, ia, ir))
+            if x.size <= 512:
+                o = core.Driver().run(["psd.area %s %s %s %s %s" % (fbits(case["sig"]["dt"]), arg(case["nperseg"]), arg(case.get("noverlap")),
+                                                                    arg(case.get("nfft")), floats(x))])[0].split()
+                if o[0] == "ok":
+                    print("model:      area = %.12g, mean of sum((w*y)^2)/sum(w^2) = %.12g" % (unfbits(o[1]), unfbits(o[2])))
+        except Exception as e:  # noqa
+            print("(sides not evaluated: %s)" % e)
     if case.get("api") in ("signal", "ts", "gui") and not case.get("twin"):
         # also show the model's answer
         try:
